@@ -18,7 +18,8 @@
      MTooLong / MTimerCommon     internalState.getDifference (recursive on slice / too long)
      MChanTooLong / MTimerChan   channelState.getDifference (recursive while not final)
      MStartup     startup getDifference + channel-subscribe getDifference of every channel
-   Trace alphabet: Deliver seq id | Persist seq value | TooLong seq, in program order of the
+   Trace alphabet: Deliver seq id | Persist seq value | TooLong seq from to (the callback, with
+   the position range (from, to] the too-long answer skips), in program order of the
    goroutine that owns the sequence (the real interleaving ACROSS sequences differs; every
    statement below is per sequence and insensitive to it).
    The seq sequence is box -2 (numbered containers, applySeq, updatePtsChanged); a channel
@@ -45,11 +46,21 @@ Record config := {
   base : Z -> Z;            (* initially persisted = initial local position; for a channel without
                                storage record: the start of the first update pushed for it *)
   tracked0 : Z -> bool;     (* channels with a storage record at startup *)
-  slice_lim : Z; tl_thr : Z; cslice_lim : Z; ctl_thr : Z
+  (* the server's policy, arbitrary functions of the log, the horizon and the request:
+     cutf log vis reqp reqq = (intermediate pts, intermediate qts, sliced?) of a common difference,
+     tlf vis reqp           = answer updates.differenceTooLong?
+     ccutf s pending vis_s  = (pts, not final?) of a channel difference,
+     ctlf s vis_s req       = answer updates.channelDifferenceTooLong?
+     Every answer carries exactly the log entries in (request, cut]: messages as new_messages,
+     the rest as other_updates (the split is fixed by the TL schema). *)
+  cutf : list entry -> (Z -> Z) -> Z -> Z -> Z * Z * bool;
+  tlf : (Z -> Z) -> Z -> bool;
+  ccutf : Z -> list entry -> Z -> Z * bool;
+  ctlf : Z -> Z -> Z -> bool
 }.
 Definition SEQ : Z := -2.   (* key of the seq box; the server's seq horizon is vis (nseq c) *)
 
-Inductive tev := Deliver (s id : Z) | Persist (s v : Z) | TooLong (s : Z).
+Inductive tev := Deliver (s id : Z) | Persist (s v : Z) | TooLong (s from to : Z).
 
 Record mgr := { mbox : Z -> box; mtr : list tev; moof : bool;
                 mtracked : Z -> bool;                          (* channel workers that exist *)
@@ -114,6 +125,14 @@ Definition slice_cut2 (lim : Z) (log : list entry) (vis : Z -> Z) (reqp reqq : Z
   then let pre := firstn (Z.to_nat lim) mg in (max_pos 0 reqp pre, max_pos 1 reqq pre, true)
   else (vis 0, vis 1, false).
 
+(* the policy of the harness's fake server: limits and thresholds *)
+Definition std_config (n : Z) (b : Z -> Z) (tr : Z -> bool) (sl tl csl ctl : Z) : config :=
+  {| nseq := n; base := b; tracked0 := tr;
+     cutf := fun log vis rp rq => slice_cut2 sl log vis rp rq;
+     tlf := fun vis rp => (0 <? tl) && (vis 0 - rp >? tl);
+     ccutf := fun _ pp v => slice_cut csl pp v;
+     ctlf := fun _ v req => (0 <? ctl) && (v - req >? ctl) |}.
+
 Definition set_state (m : mgr) (s v : Z) : mgr :=
   set_box m s (fst (step (mbox m s) (SeqBox.SetState v))).
 Definition clear_gaps (m : mgr) (s : Z) : mgr :=
@@ -133,11 +152,11 @@ Fixpoint get_diff (fuel : nat) (c : config) (log : list entry) (vis : Z -> Z) (m
     match pp ++ qq with
     | [] => set_state m SEQ (vis (nseq c))                     (* updates.differenceEmpty *)
     | _ :: _ =>
-      if (0 <? tl_thr c) && (vis 0 - reqp >? tl_thr c) then     (* updates.differenceTooLong *)
-        let m := emit m [TooLong 0; Persist 0 (vis 0)] in
+      if tlf c vis reqp then                                    (* updates.differenceTooLong *)
+        let m := emit m [TooLong 0 reqp (vis 0); Persist 0 (vis 0)] in
         get_diff f c log vis (set_state m 0 (vis 0))
       else
-        let '(cut, cutq, sliced) := slice_cut2 (slice_lim c) log vis reqp reqq in
+        let '(cut, cutq, sliced) := cutf c log vis reqp reqq in
         let pp' := pend log 0 reqp cut in
         let qq' := pend log 1 reqq cutq in
         let others := filter (fun e => negb (is_msg e)) pp' ++ filter (fun e => negb (is_msg e)) qq' in
@@ -160,10 +179,10 @@ Fixpoint chan_diff (fuel : nat) (c : config) (log : list entry) (vis : Z -> Z) (
     match pp with
     | [] => set_state (emit m [Persist s (vis s)]) s (vis s)          (* channelDifferenceEmpty *)
     | _ :: _ =>
-      if (0 <? ctl_thr c) && (vis s - req >? ctl_thr c) then            (* channelDifferenceTooLong *)
-        set_state (emit m [TooLong s; Persist s (vis s)]) s (vis s)
+      if ctlf c s (vis s) req then                                      (* channelDifferenceTooLong *)
+        set_state (emit m [TooLong s req (vis s); Persist s (vis s)]) s (vis s)
       else
-        let '(cut, sliced) := slice_cut (cslice_lim c) pp (vis s) in
+        let '(cut, sliced) := ccutf c s pp (vis s) in
         let pp' := pend log s req cut in
         let m := emit m (delivers (filter (fun e => negb (is_msg e)) pp') ++ delivers (filter is_msg pp')
                          ++ [Persist s cut]) in
@@ -256,7 +275,7 @@ Definition mrun (c : config) (log : list entry) (ops : list mop) : mgr :=
 Definition persisted (c : config) (s : Z) (tr : list tev) : Z :=
   fold_left (fun acc ev => match ev with Persist s' v => if s' =? s then v else acc | _ => acc end) tr (base c s).
 Definition accounted (s : Z) (e : entry) (tr : list tev) : Prop :=
-  In (Deliver s (eid e)) tr \/ In (TooLong s) tr.
+  In (Deliver s (eid e)) tr \/ exists f t, In (TooLong s f t) tr /\ f < epos e <= t.
 (* C03: the persisted position of s covers only entries already delivered or reported too long *)
 Definition safe_at (c : config) (log : list entry) (tr : list tev) : Prop :=
   forall s e, In e log -> eseq e = s -> 0 <= s -> base c s < epos e <= persisted c s tr -> accounted s e tr.
